@@ -154,7 +154,10 @@ class Hand(twisted.internet.protocol.Protocol):
             log.warning('Worker and pipeline revisions are not the same.')
             self.transport.loseConnection()
         else:
-            _workers.append(self)
+            # a register frame may be processed more than once for one
+            # connection: the worker is still one worker and gets one task
+            if self not in _workers:
+                _workers.append(self)
             self.__incarnation = msg.incarnation
             log.debug(
                 'Registered a worker for its %d incarnation.', msg.incarnation
